@@ -52,6 +52,29 @@ Proof.
     right. exists x, ex. repeat split; auto. apply anc_iff. exact Hx.
 Qed.
 
+Lemma MaxSeq_submap E1 E2 a v M : submap E1 E2 -> closed E1 -> (exists ea, alookup a E1 = Some ea) ->
+  (MaxSeq E2 a v M <-> MaxSeq E1 a v M).
+Proof.
+  intros Hs Hc Ha. unfold MaxSeq. split; intros [U W]; split.
+  - intros x ex Rx Lx Cx. apply (U x ex); [apply (reach_submap E1 E2 a x Hs Hc Ha); exact Rx|apply Hs; exact Lx|exact Cx].
+  - destruct W as [Z|(x & ex & Rx & Lx & Cx & Sx)]; [left; exact Z|]. right.
+    apply (reach_submap E1 E2 a x Hs Hc Ha) in Rx. destruct (reach_in_r _ _ _ Rx) as [ex1 Ex1].
+    pose proof (Hs x ex1 Ex1) as Ex2. rewrite Lx in Ex2. injection Ex2 as ->. exists x, ex1. auto.
+  - intros x ex Rx Lx Cx. apply (reach_submap E1 E2 a x Hs Hc Ha) in Rx. destruct (reach_in_r _ _ _ Rx) as [ex1 Ex1].
+    pose proof (Hs x ex1 Ex1) as Ex2. rewrite Lx in Ex2. injection Ex2 as ->. apply (U x ex1); auto.
+  - destruct W as [Z|(x & ex & Rx & Lx & Cx & Sx)]; [left; exact Z|]. right.
+    exists x, ex. split; [apply (reach_submap E1 E2 a x Hs Hc Ha); exact Rx|]. split; [apply Hs; exact Lx|auto].
+Qed.
+Theorem merged_spec_submap n E1 E2 a : submap E1 E2 -> closed E1 -> (exists ea, alookup a E1 = Some ea) ->
+  merged_spec n E2 a = merged_spec n E1 a.
+Proof.
+  intros Hs Hc Ha. unfold merged_spec. apply map_ext. intros v.
+  assert (Hf : sees_fork E2 (anc E2 a) v = sees_fork E1 (anc E1 a) v).
+  { apply eq_true_iff_eq. rewrite !sees_fork_anc. apply SeesFork_submap; assumption. }
+  rewrite Hf. destruct (sees_fork E1 (anc E1 a) v); [reflexivity|]. f_equal.
+  eapply (MaxSeq_unique E1 a v); [apply (MaxSeq_submap E1 E2 a v _ Hs Hc Ha); apply merged_spec_max|apply merged_spec_max].
+Qed.
+
 (* ---------- GatherFrom ---------- *)
 Definition gather (av : list hbs) (brs : list nat) : hbs :=
   fold_left (fun hi br => if is_fork hi then hi else
@@ -107,9 +130,9 @@ Lemma seen_marker_iff a ea av v : evt s a ea -> alookup a (hb s) = Some av -> (v
 Proof.
   intros Ea Ha Hv. split.
   - intros (br & Hbr & Hf). apply (v_bycr n s I) in Hbr; [|exact Hv]. destruct Hbr as [Lbr Cbr].
-    destruct (v_hb n s I a ea av br Ea Ha) as [[_ HS]|[Hnf _]]; [|congruence]. rewrite Cbr in HS. exact HS.
+    destruct (v_hb n s I a ea av br Ea Ha) as [(_ & _ & HS)|[Hnf _]]; [|congruence]. rewrite Cbr in HS. exact HS.
   - intros HS. pose proof HS as (x & y & Rx & Ry & Hf).
-    destruct (fork_pair_branches n s I v x y Hf) as (ex & ey & bx & by_ & Ex & Ey & Bx & By & Hne & Cx & Cy & Hs & Lx & Ly).
+    destruct (fork_pair_branches n s (v_g n s I) v x y Hf) as (ex & ey & bx & by_ & Ex & Ey & Bx & By & Hne & Cx & Cy & Hs & Lx & Ly).
     exists bx. split; [apply (v_bycr n s I); auto|].
     destruct (v_hb n s I a ea av bx Ea Ha) as [[Hf' _]|(_ & _ & Hcompl)]; [exact Hf'|].
     exfalso. rewrite Cx in Hcompl. apply (Hcompl HS x). split; assumption.
@@ -127,14 +150,14 @@ Proof.
     destruct (v_br n s I x ex br Lx Bx) as (Lbr & Cbr & _).
     assert (Hin : In br (brs_of s v)) by (apply (v_bycr n s I); auto; split; auto; congruence).
     specialize (Hub br Hin).
-    destruct (v_hb n s I a ea av br Ea Ha) as [[_ HS]|(_ & Htr & _)].
+    destruct (v_hb n s I a ea av br Ea Ha) as [(_ & _ & HS)|(_ & Htr & _)].
     + exfalso. apply Hns. rewrite Cbr, Cx in HS. exact HS.
     + destruct Htr as [[Hnone _]|(hi & lo & _ & _ & _ & _ & Hrng)].
       * exfalso. apply (Hnone x). split; assumption.
       * specialize (Hrng x (conj Rx Bx)). rewrite (seqv_evt s x ex Lx) in Hrng. lia.
   - destruct Hat as [Hz|(br & Hbr & Heq)]; [left; exact Hz|].
     apply (v_bycr n s I) in Hbr; [|exact Hv]. destruct Hbr as [Lbr Cbr].
-    destruct (v_hb n s I a ea av br Ea Ha) as [[_ HS]|(_ & Htr & _)].
+    destruct (v_hb n s I a ea av br Ea Ha) as [(_ & _ & HS)|(_ & Htr & _)].
     + exfalso. apply Hns. rewrite Cbr in HS. exact HS.
     + destruct Htr as [[_ Hz]|(hi & lo & [Rhi Bhi] & _ & Shi & _ & _)]; [left; lia|].
       right. destruct (reach_in_r _ _ _ Rhi) as [ehi Ehi].
@@ -163,7 +186,7 @@ Proof.
           split; [exact B1|]. apply (unmarked_max a ea av v _ Ea Ha Hv Hns B3).
           destruct B4 as [->|(br & Hbr & ->)]; [left; reflexivity|right; exists br; auto].
       - split.
-        + intros HS. destruct (SeesFork_two_branches n s I a v HS) as (_ & _ & H). congruence.
+        + intros HS. destruct (SeesFork_two_branches n s (v_g n s I) a v HS) as (_ & _ & H). congruence.
         + intros Hns.
           assert (Hbrs : forall br, In br (brs_of s v) -> br = v).
           { intros br Hbr. apply (v_bycr n s I) in Hbr; [|exact Hv]. destruct Hbr as [Lbr Cbr].
@@ -198,3 +221,15 @@ Proof.
 Qed.
 
 End Merged.
+
+(* what an entry of the specification says, in the words of the property *)
+Theorem merged_spec_meaning n E a v : (v < n)%nat ->
+  (SeesFork E a v /\ nth v (merged_spec n E a) (false, 0) = (true, 0)) \/
+  (~ SeesFork E a v /\ exists M, nth v (merged_spec n E a) (false, 0) = (false, M) /\ MaxSeq E a v M).
+Proof.
+  intros Hv. unfold merged_spec. rewrite nth_map_seq_gen by exact Hv.
+  destruct (sees_fork E (anc E a) v) eqn:HS.
+  - left. split; [apply sees_fork_anc; exact HS|reflexivity].
+  - right. split; [intros H; apply sees_fork_anc in H; congruence|].
+    eexists. split; [reflexivity|apply merged_spec_max].
+Qed.
